@@ -4,7 +4,7 @@ VARIABLE l
 Trace == ndJsonDeserialize("trace.ndjson")
 Ev == Trace[l]
 A(i) == Ev.a[i]
-Step(Act) == /\ l' = l + 1 /\ Act /\ last'.r = Ev.r /\ Reads' = Ev.o
+Step(Act) == /\ l' = l + 1 /\ Act /\ last'.r = Ev.r /\ ("o" \in DOMAIN Ev => Reads' = Ev.o)
 TReset == Ev.ev = "Reset" /\ l' = l + 1 /\ mem' = {} /\ fill' = [h \in His |-> FALSE] /\ last' = R("Init", <<>>, <<>>)
 TDrain == Ev.ev = "Drain" /\ l' = l + 1 /\ Ev.d = Enum /\ UNCHANGED vars
 TStep == \/ TReset
